@@ -23,6 +23,13 @@ MSAN = ["-fsanitize=memory", "-fsanitize-memory-track-origins=2", "-fno-omit-fra
 MSAN_ON = os.environ.get("VERIF_NO_MSAN") is None
 STATS = {"msan_runs": 0, "msan_output_lines_compared": 0, "msan_session_ops": 0}
 WARN = ["-w"]
+# diagnostic only (never set by a registered command): VERIF_CCOV=<dir> adds clang source coverage to the ASan builds,
+# keeps the build directories and writes one raw profile per process into <dir>; mut/ccov.sh turns them into a
+# per-line report of the repository's C files, which shows what the workloads never execute
+CCOV = os.environ.get("VERIF_CCOV")
+if CCOV:
+	SAN = SAN + ["-fprofile-instr-generate", "-fcoverage-mapping"]
+	os.environ["LLVM_PROFILE_FILE"] = os.path.join(CCOV, "%p-%m.profraw")
 
 # headers of firmware/include that are safe to expose on a host (never the
 # directory itself: it carries its own stdio.h/string.h/stdint.h)
@@ -36,6 +43,8 @@ class BuildDir:
 		self.path = os.path.join(common.VERIF, "build", "%s.%d" % (tag, os.getpid()))
 		shutil.rmtree(self.path, ignore_errors = True)
 		os.makedirs(self.path)
+		if CCOV:
+			open(os.path.join(self.path, ".ccov"), "w").close()
 
 	def sub(self, name):
 		p = os.path.join(self.path, name)
@@ -43,6 +52,8 @@ class BuildDir:
 		return p
 
 	def remove(self):
+		if CCOV:
+			return
 		shutil.rmtree(self.path, ignore_errors = True)
 
 
